@@ -109,6 +109,66 @@ func TestVerifC06(t *testing.T) {
 		g.do("pmap", 1, g.winPage(3), zf, 3)
 		g.do("pmap", 1, g.winPage(3), zf, 0x201)
 	})
+	// a page that was ever writable must not keep its RW bit when the zero frame is mapped on it
+	// read-only / copy-on-write (what goruntime.sysMap does): through Map, the temporary-mapping
+	// slot, PageDirectoryTable.Map on an inactive table and the region loops
+	for _, unmapFirst := range []bool{true, false} {
+		unmapFirst := unmapFirst
+		bcase("b-stale-rw-map", func() {
+			g.refill(16)
+			g.do("rzf")
+			zf := uint64(ReservedZeroedFrame)
+			for k, fl := range []uint64{3, 1<<63 | 3, 7, 0x63} {
+				d := g.take()
+				g.do("map", g.winPage(k), d, fl)
+				if unmapFirst {
+					g.do("unmap", g.winPage(k))
+				}
+				g.do("map", g.winPage(k), zf, 0x201|1<<63)
+				g.do("xlate", g.winPage(k)<<12)
+			}
+			g.do("pf", g.winPage(0)<<12|8, 3)
+		})
+		bcase("b-stale-rw-temp", func() {
+			g.refill(16)
+			g.do("rzf")
+			zf := uint64(ReservedZeroedFrame)
+			g.do("maptmp", g.take()) // the temporary slot is always mapped Present|RW
+			if unmapFirst {
+				g.do("unmap", g.tmp)
+			}
+			g.do("map", g.tmp, zf, 0x201|1<<63)
+			g.do("map", g.tmp, zf, 0x201)
+		})
+		bcase("b-stale-rw-inactive", func() {
+			g.refill(24)
+			g.do("rzf")
+			zf := uint64(ReservedZeroedFrame)
+			g.do("pinit", 1, g.take())
+			g.do("pmap", 1, g.winPage(2), g.take(), 3)
+			if unmapFirst {
+				g.do("punmap", 1, g.winPage(2))
+			}
+			g.do("pmap", 1, g.winPage(2), zf, 0x201|1<<63)
+			g.do("act", 1)
+			g.do("xlate", g.winPage(2)<<12)
+		})
+		bcase("b-stale-rw-region", func() {
+			g.refill(24)
+			g.do("rzf")
+			zf := uint64(ReservedZeroedFrame)
+			// the page MapRegion will reserve next, and the page IdentityMapRegion(zf) maps
+			next := (uint64(earlyReserveLastUsed) - 4096) >> 12
+			g.do("map", next, g.take(), 3)
+			g.do("map", zf, g.take(), 1<<63|3)
+			if unmapFirst {
+				g.do("unmap", next)
+				g.do("unmap", zf)
+			}
+			g.do("region", zf, 4096, 0x201)
+			g.do("ident", zf, 1, 0x201|1<<63)
+		})
+	}
 	bcase("b-rzf-fail", func() {
 		g.refill(0)
 		g.do("rzf")
@@ -219,6 +279,18 @@ func TestVerifC06(t *testing.T) {
 			} else {
 				frames[k] = g.setupPage(k, g.leafFlags(), r.pick(0, 0, r.next()))
 			}
+		}
+		// a page that was writable before gets the zero frame copy-on-write (stale flag bits must not survive)
+		if withZero && r.chance(40) {
+			k := r.intn(np)
+			if r.chance(50) {
+				g.do("map", g.winPage(k), g.take(), r.pick(3, 7, 1<<63|3, 0x23))
+			}
+			if r.chance(50) {
+				g.do("unmap", g.winPage(k))
+			}
+			g.do("map", g.winPage(k), zf, r.pick(0x201, 0x201|1<<63, 0x205, 1))
+			frames[k] = zf
 		}
 		// guard probes through every mapping entry point
 		if withZero && r.chance(50) {
